@@ -1,4 +1,5 @@
 import QuillModel.Backend.DrainProofs
+import QuillModel.Backend.DrainProgress
 /-!
 # C07 (drain part) — stopping the backend loses no completed statement
 
@@ -67,7 +68,7 @@ theorem C07_exit_drains (s0 : BSt) (h0 : DrainFresh s0) (ops : List Op) :
     rw [hform]; exact exitFinal_drained sK hK heK
   have hT : TCInv s' := by
     rw [hs']
-    exact TCInv_closed.gone _ (exitLoop_ok TCInv_closed hinj _ _ _ hsp)
+    exact TCInv_closed.gone _ (exitLoop_ok TCInv_closed.toClosedB hinj _ _ _ hsp)
   refine ⟨?_, by rw [hs']⟩
   intro i hi
   have hd : (s'.th i).buf = [] ∧ (s'.th i).qStmts = [] := by
@@ -98,11 +99,47 @@ theorem C07_exit_flushes_last (s0 : BSt) (h0 : DrainFresh s0) (ops : List Op) :
     rw [hap, if_neg (by rw [hg]; simp), ← hform]
   refine ⟨sK, heK, hs', ?_⟩
   rw [hs']
-  obtain ⟨d, hd, hall⟩ := cleanupLoggers_dtors (cleanupContexts (flushSinks (checkFailures (runInj []) (allEmpty sK).1)))
+  obtain ⟨d, hd, hall⟩ := cleanupLoggers_dtors (runInj []) runInj_nil_quiet9
+    (cleanupContexts (flushSinks (checkFailures (runInj []) (allEmpty sK).1)))
   refine ⟨d, ?_, hall⟩
   show (exitFinal (runInj []) sK).log = _
   unfold exitFinal
   rw [hd, cleanupContexts_log]
+
+/-! ### progress and termination -/
+
+/-- **The drain never adds work.** With the frontend stopped, no iteration of the exit loop — reading the queues,
+    the batch loop, reports, clean-ups — increases the number of statements waiting in queues and transit buffers,
+    and neither does the whole loop. -/
+theorem C07_exit_never_adds (tick : Nat) (s : BSt) :
+    pendingTotal (exitBody (runInj []) tick s) ≤ pendingTotal s ∧
+    ∀ fuel, pendingTotal (exitLoop (runInj []) tick fuel s) ≤ pendingTotal s :=
+  ⟨exitBody_pending_le tick s, fun fuel => exitLoop_pending_le tick fuel s⟩
+
+/-- **Every processed event is progress**: whenever `_process_lowest_timestamp_transit_event` processes an event
+    (returns true) exactly one statement leaves the waiting ones — also when it is a Flush request with its
+    report and context clean-up. -/
+theorem C07_pop_progress (s : BSt) (h : (processLowest (runInj []) s).2 = true) :
+    pendingTotal (processLowest (runInj []) s).1 + 1 = pendingTotal s :=
+  processLowest_pending s h
+
+/- Full statement aimed at (not proved): from every reachable state the exit loop reaches its "everything is empty"
+   branch within `pendingTotal s + (maxTs + grace − now) / tick + 1` iterations, i.e. `exitEnds` holds for the fuel of
+   `Op.exit`. Missing: (1) that an iteration in which every pending timestamp is eligible (`ts ≤ now − grace`) pops
+   at least one event — this needs the bounded-queue invariant `Spsc.QInv` for every thread's queue (a non-empty
+   queue is offered by `prepare_read`, so the do-while of `readQueue` moves at least one eligible record and
+   `hasPending` then answers no); (2) the clock argument for the iterations before that. Proved: the conditional
+   form below (progress in every non-final iteration ⇒ termination within `pendingTotal + 1` iterations), together
+   with `C07_exit_never_adds` and `C07_pop_progress`. -/
+
+/-- **Termination, conditionally** (`…_partial`, see the comment above): if every iteration that does not find
+    everything empty takes at least one statement out of the waiting ones, the exit loop reaches its "everything is
+    empty" branch within `pendingTotal s + 1` iterations — and then `C07_exit_drains` applies. -/
+theorem C07_exit_terminates_partial (inj : BSt → Nat → BSt) (tick fuel : Nat) (s : BSt)
+    (hprog : ∀ n, (allEmpty (exitIter inj tick n s)).2 = false →
+      pendingTotal (exitBody inj tick (exitIter inj tick n s)) < pendingTotal (exitIter inj tick n s))
+    (hf : pendingTotal s < fuel) : exitEnds inj tick fuel s :=
+  exit_terminates_of_progress inj tick fuel s hprog hf
 
 /-! ### non-vacuity -/
 
